@@ -157,6 +157,55 @@ func VerifH_C05_compare() {
 	}
 }
 
+// comparability of a typed operand (variable or typed constant) with an untyped constant, both orders
+func VerifH_C05_compareConst() {
+	_, all := verifUniverse("")
+	pkg := verifNewPkg()
+	k := verifUntypedKinds[vp.Choose("k", len(verifUntypedKinds))]
+	T := verifPickNamed("T", all, verifConstTargets)
+	var c constant.Value
+	if k != types.UntypedNil {
+		c = verifOperandOfKind("c", k).val
+	}
+	typed := &Element{Val: &ast.Ident{Name: T.name}, Type: T.typ}
+	// the typed operand may itself be a constant (const t T = 1): its value must not matter
+	if b, ok := T.typ.Underlying().(*types.Basic); ok && b.Info()&types.IsInteger != 0 && vp.Choose("typedconst", 2) == 1 {
+		typed.CVal = constant.MakeInt64(1)
+	}
+	untyped := &Element{Val: &ast.Ident{Name: "c"}, Type: types.Typ[k], CVal: c}
+	var ab, ba bool
+	class := vp.Try(func() {
+		ab = ComparableTo(pkg, typed, untyped)
+		ba = ComparableTo(pkg, untyped, typed)
+	})
+	vp.Assert("C17.c05.compareconst.nofault", class != vp.FaultPanic)
+	if class != vp.NoPanic {
+		return
+	}
+	vp.Fact("k", int(k))
+	tk := 0
+	if b, ok := T.typ.Underlying().(*types.Basic); ok {
+		tk = int(b.Kind())
+	}
+	vp.Fact("tkind", tk)
+	vp.Assert("C05.compareconst.symmetric", ab == ba)
+	// Go: the constant is converted to the typed operand's type (must be representable), and
+	// that type must be comparable (nil: only with pointer, func, slice, map, chan, interface)
+	want := verifSpecAssignUntyped(k, c, T.typ)
+	if k != types.UntypedNil {
+		want = want && types.Comparable(T.typ)
+	}
+	if want {
+		vp.Assert("C02,C05.compareconst.complete", ab)
+	} else {
+		vp.Assert("C01,C05.compareconst.sound", !ab)
+	}
+	if !vp.Symbolic() && typed.CVal == nil {
+		ok, msg := verifGoAccepts(fmt.Sprintf("\nvar _ = %s == %s\n", T.name, verifUntypedSrc(k, c)))
+		vp.Oracle("spec.compareconst", ok == want, fmt.Sprintf("%s == %s: spec %v go/types %v (%s)", T.name, verifUntypedSrc(k, c), want, ok, msg))
+	}
+}
+
 // convertibility of typed values and default types
 func VerifH_C05_convert() {
 	_, all := verifUniverse("")
